@@ -377,15 +377,45 @@ def opEXPLODESPEC : P String := do
 
 /-! ### roller trees -/
 
+/-- two's-complement bitwise operations on `Int` (Python's `& | ^ ~` on ints), through `Nat` -/
+def intNot (a : Int) : Int := -a - 1
+def intAnd (a b : Int) : Int :=
+  if a ≥ 0 then
+    if b ≥ 0 then ((a.toNat &&& b.toNat : Nat) : Int)
+    else (((a.toNat ^^^ (a.toNat &&& (intNot b).toNat)) : Nat) : Int)       -- a AND NOT nb
+  else
+    if b ≥ 0 then (((b.toNat ^^^ (b.toNat &&& (intNot a).toNat)) : Nat) : Int)
+    else intNot (((intNot a).toNat ||| (intNot b).toNat : Nat) : Int)       -- NOT (na OR nb)
+def intOr (a b : Int) : Int := intNot (intAnd (intNot a) (intNot b))
+def intXor (a b : Int) : Int :=
+  if a ≥ 0 then
+    if b ≥ 0 then ((a.toNat ^^^ b.toNat : Nat) : Int) else intNot ((a.toNat ^^^ (intNot b).toNat : Nat) : Int)
+  else
+    if b ≥ 0 then intNot (((intNot a).toNat ^^^ b.toNat : Nat) : Int) else (((intNot a).toNat ^^^ (intNot b).toNat : Nat) : Int)
+
+/-- the operator vocabulary of the correspondence (Python's int semantics: floor division and modulo;
+zero divisors and negative exponents are outside the domain — the generator excludes them, and the
+theorems about trees hold for every operator function anyway) -/
 def binOp (c : Int) : Int → Int → Int :=
   if c = 0 then (· + ·) else if c = 1 then (· - ·) else if c = 2 then (· * ·)
   else if c = 3 then (fun a b => if a < b then 1 else 0)
   else if c = 4 then (fun a b => if a = b then 1 else 0)
   else if c = 5 then (fun a b => if a ≥ b then 1 else 0)
-  else (fun a b => if a ≠ b then 1 else 0)
+  else if c = 6 then (fun a b => if a ≠ b then 1 else 0)
+  else if c = 7 then Int.fdiv
+  else if c = 8 then Int.fmod
+  else if c = 9 then (fun a b => if a ≤ b then 1 else 0)
+  else if c = 10 then (fun a b => if a > b then 1 else 0)
+  else if c = 11 then intAnd
+  else if c = 12 then intOr
+  else if c = 13 then intXor
+  else (fun a b => a ^ b.toNat)
 
 def unOp (c : Int) : Int → Int :=
-  if c = 0 then (fun a => -a) else if c = 1 then (fun a => a.natAbs) else (fun a => a)
+  if c = 0 then (fun a => -a) else if c = 1 then (fun a => a.natAbs) else if c = 2 then (fun a => a)
+  else if c = 3 then intNot
+  else if c = 4 then (fun a => if a % 2 = 0 then 1 else 0)
+  else (fun a => if a % 2 = 0 then 0 else 1)
 
 def predOp (c arg : Int) : Int → Bool :=
   if c = 0 then (fun v => decide (v > arg)) else if c = 1 then (fun v => decide (v % 2 = 0))
@@ -409,9 +439,12 @@ partial def rtree : P RTree := do
   else if t = 9 then do
     let c ← tok; let a ← tok; let e ← rtree; let rep ← tok; let md ← nat; let src ← rtree
     pure (.subst (predOp c a) e (rep = 1) md src)
-  else do
+  else if t = 10 then do
     let c ← tok; let a ← tok; let fc ← tok; let fa ← tok; let md ← nat; let src ← rtree
     pure (.substMap (predOp c a) (mapOp fc fa) md src)
+  else do  -- a unary node whose function is a binary operator with a scalar on one side
+    let c ← tok; let k ← tok; let side ← tok; let s ← rtree
+    pure (.un (fun a => if side = 0 then binOp c a k else binOp c k a) s)
 
 def showVals (vs : List Int) : String := "(" ++ ",".intercalate (vs.map toString) ++ ")"
 
